@@ -312,12 +312,13 @@ type explain struct {
 	Feat  []string `json:"feat"`
 }
 
+// jcfg: the judge pass. CheckObs = FALSE: no event is rejected, the failed post-conditions of every event are printed;
+// TraceAccepted demands that every event was judged.
 func jcfg(check bool) string {
-	ck, post := "FALSE", ""
+	ck := "FALSE"
 	if check {
-		ck, post = "TRUE", "POSTCONDITION TraceAccepted\n"
+		ck = "TRUE"
 	}
-	_ = post
 	return "SPECIFICATION JSpec\nCONSTANTS Mode = \"none\"\n NFree = 0\n NRand = 0\n MinW = 0\n MaxW = 0\n Alpha = \"std\"\n LMode = \"none\"\n NTok = 0\n NLRand = 0\n MaxWSel = 0\n Indents = {}\n CheckObs = " + ck + "\n ChunkSize = 64\nPOSTCONDITION TraceAccepted\nCHECK_DEADLOCK FALSE\n"
 }
 
@@ -359,7 +360,7 @@ func runesToString(r []int) string {
 }
 
 // judge lets Trace_Layout evaluate the events; explain mode. Returns mismatches per event index.
-func judge(c *core.Ctx, evs []*Event, check bool) (accepted bool, per map[int][]core.Mismatch) {
+func judge(c *core.Ctx, evs []*Event) (accepted bool, per map[int][]core.Mismatch) {
 	var buf bytes.Buffer
 	enc := json.NewEncoder(&buf)
 	for _, e := range evs {
@@ -370,7 +371,6 @@ func judge(c *core.Ctx, evs []*Event, check bool) (accepted bool, per map[int][]
 	// One pass: with CheckObs = FALSE no event is rejected, the failed post-conditions of every event are printed and
 	// TraceAccepted still demands that every event was judged. (CheckObs = TRUE - failing events disable the step - is
 	// the same judgement; it would only add a second pass on trees with known findings.)
-	_ = check
 	byK := map[int]*Event{}
 	for _, e := range evs {
 		byK[e.K] = e
@@ -402,7 +402,7 @@ func (d Driver) Replay(c *core.Ctx, raw json.RawMessage) []core.Mismatch {
 	if o.panic != "" {
 		return []core.Mismatch{{Signature: "panic-totext", Detail: o.panic}}
 	}
-	_, per := judge(c, []*Event{o.ev}, false)
+	_, per := judge(c, []*Event{o.ev})
 	return per[1]
 }
 
@@ -489,6 +489,22 @@ func (d Driver) Run(c *core.Ctx) error {
 		close(ch)
 		<-done
 	}
+	// independent generation runs, three TLC instances at a time
+	sem := make(chan struct{}, 3)
+	var wg sync.WaitGroup
+	seq := run
+	run = func(o tlc.Opts) {
+		wg.Add(1)
+		sem <- struct{}{}
+		go func() {
+			defer wg.Done()
+			defer func() { <-sem }()
+			if o.Workers == 0 {
+				o.Workers = 6
+			}
+			seq(o)
+		}()
+	}
 	maxw := c.Pick(5, 6)
 	for nt := 1; nt <= 2; nt++ {
 		run(tlc.Opts{Module: "Layout", Config: gcfg("exh", nt, 0, maxw, "{0, 1}", false)})
@@ -500,6 +516,7 @@ func (d Driver) Run(c *core.Ctx) error {
 	for nt := 4; nt <= 9; nt++ {
 		run(tlc.Opts{Module: "Layout", Config: gcfg("rand", nt, c.Pick(80, 600), maxw, "{0, 1}", false), Seed: c.Seed + int64(nt)})
 	}
+	wg.Wait()
 	c.Count(n, nontrivial, 0)
 	c.SetExtra("layouts_with_kp_lines_bound", kpBound)
 	c.SetExtra("layouts_overflowing", overflowing)
@@ -509,7 +526,7 @@ func (d Driver) Run(c *core.Ctx) error {
 	const batch = 60000
 	for lo := 0; lo < len(evs); lo += batch {
 		hi := min(lo+batch, len(evs))
-		ok, per := judge(c, evs[lo:hi], true)
+		ok, per := judge(c, evs[lo:hi])
 		if ok {
 			c.Count(0, 0, int64(hi-lo))
 			continue
